@@ -43,6 +43,12 @@ type composeSpec struct {
 	// steps: further calls made on every finished state of the previous call
 	// (the step reads the previous result from the state)
 	steps []composeStep
+	// maxIter: bound on iterations of loops with decided conditions (0 = default 5000)
+	maxIter int
+	// termLimit: computed floats with larger terms become plain unknowns (0 = no limit)
+	termLimit int
+	// maxVisits: bound on undecided loop iterations for this spec (0 = default)
+	maxVisits int
 	// generalPosition: equality between two different free inputs is taken to be false
 	generalPosition bool
 	// skipTruncated: paths cut by the exploration bounds (unbounded descent for
@@ -269,6 +275,12 @@ func runComposeCase(p *Program, it *Interp, sp *composeSpec, cs composeCase) (re
 	it.Precise = sp.precise
 	it.GeneralPosition = sp.generalPosition
 	it.NonNeg, it.Positive = nil, nil
+	it.TermLimit = sp.termLimit
+	it.MaxIter = sp.maxIter
+	it.lim.MaxVisits = 64
+	if sp.maxVisits > 0 {
+		it.lim.MaxVisits = sp.maxVisits
+	}
 	var okeys []string
 	for k := range sp.oracles {
 		okeys = append(okeys, k)
@@ -311,6 +323,9 @@ func runComposeCase(p *Program, it *Interp, sp *composeSpec, cs composeCase) (re
 		it.Finished = next
 	}
 	pos := p.Pos(fn.Pos())
+	if os.Getenv("ORBCHECK_STATS") != "" {
+		fmt.Printf("STATS %s(%s): paths=%d finished=%d truncated=%d %v steps=%d\n", sp.entry, cs.label, it.Paths, len(it.Finished), it.Truncated, it.TruncWhy, it.Steps)
+	}
 	if it.Truncated > 0 && !sp.skipTruncated {
 		return composeResult{verdict: Undecided, pos: pos, detail: fmt.Sprintf("exploration truncated (%v); the composition is not decided", it.TruncWhy)}
 	}
@@ -340,7 +355,24 @@ func runComposeCase(p *Program, it *Interp, sp *composeSpec, cs composeCase) (re
 				}
 				hist = append(hist, fmt.Sprintf("%s@%s=%s", ev.Fn.Name(), ev.Pos, strings.Join(outs, ",")))
 			}
-			return composeResult{verdict: Violated, pos: pos, detail: why + "; expected: " + sp.desc, witness: []string{"answers on this path: " + strings.Join(hist, " ")}}
+			wit := []string{"answers on this path: " + strings.Join(hist, " ")}
+			if sp.terms {
+				var facts []string
+				for _, t := range st.trail {
+					if f := t.Fact; f != nil && f.A != nil && f.B != nil {
+						neg := ""
+						if !f.Taken {
+							neg = "not "
+						}
+						facts = append(facts, fmt.Sprintf("%s(%s %s %s) at %s", neg, it.nameTerm(f.A, nil), f.Op, it.nameTerm(f.B, nil), t.Pos))
+					}
+				}
+				if len(facts) > 40 {
+					facts = append(facts[:40], "...")
+				}
+				wit = append(wit, "comparisons assumed on this path: "+strings.Join(facts, "; "))
+			}
+			return composeResult{verdict: Violated, pos: pos, detail: why + "; expected: " + sp.desc, witness: wit}
 		}
 	}
 	if judged == 0 {
